@@ -48,8 +48,13 @@ impl MultiRecordLog {
         loop {
             #[cfg(mrecordlog_verif)]
             crate::verif_hooks::tick();
-            let file_number = record_reader.read().current_file().clone();
-            let record = match record_reader.read_record::<MultiPlexedRecord>() {
+            // The file the record starts in: the reader may have walked over frames without a
+            // record (padding, the tail of a record whose head is gone) and into later files
+            // before it found the first frame.
+            let mut file_number = record_reader.read().current_file().clone();
+            let record = match record_reader.read_record_with::<MultiPlexedRecord>(|reader| {
+                file_number = reader.current_file().clone();
+            }) {
                 Ok(record) => record,
                 // io errors are non-recoverable: retrying would spin forever.
                 Err(ReadRecordError::IoError(io_err)) => {
